@@ -60,6 +60,13 @@ func (c *OColor) UnmarshalText(b []byte) error {
 		*c = "#0000ff"
 		return nil
 	}
+	if len(s) == 3 && s[0] == '#' {
+		// application code at fault: a short form the parser was never written for (it half-writes the value and
+		// panics, as an index out of range would). The bind may propagate the panic; it must not report success.
+		*c = OColor("#" + s[1:2])
+		userPanicSeen.Store(true)
+		panic(errUserPanic)
+	}
 	if len(s) != 4 && len(s) != 7 || s[0] != '#' {
 		return errors.New("bad colour")
 	}
@@ -125,6 +132,9 @@ func opqParse(k int, s string) (reflect.Value, bool) {
 		return reflect.ValueOf(l), true
 	case 5:
 		var c OColor
+		if len(s) == 3 && s[0] == '#' {
+			return reflect.Value{}, false // UnmarshalText panics on this form: no value
+		}
 		if c.UnmarshalText([]byte(s)) != nil {
 			return reflect.Value{}, false
 		}
@@ -185,7 +195,7 @@ var opqBad = [][]string{
 	{"10.0.0.1", "10.0.0.0/33", "", "/8", "::1/129", "10.0.0.0/ 8", "a/b"},
 	{"(", "a{2,1}", "[z-a]", "*", "(?P<n>", "\\"},
 	{"3", "verbose", "", "0", " info", "info ", "1", "-1"},
-	{"#ggg", "blueish", "#12345", "", "fff", "#", "#1234567", "0"},
+	{"#ggg", "blueish", "#12345", "", "fff", "#", "#1234567", "0", "#12", "#ab"},
 }
 
 func opqValue(r *hx.Rand, k int, bad bool) string {
@@ -203,6 +213,10 @@ func opqPrefill(r *hx.Rand, k int, v reflect.Value) {
 		v.Set(pv)
 	}
 }
+
+// userPanicSeen: the UnmarshalText of a corpus type panicked since the flag was last cleared
+var userPanicSeen atomic.Bool
+var errUserPanic = errors.New("harness: UnmarshalText of the application panics on this input")
 
 // OBoom is a TextUnmarshaler whose UnmarshalText panics: application code at fault. faultT carries it with a
 // default tag, so the fault strikes while the type's field table is built (the default is converted there).
